@@ -204,6 +204,10 @@ class PlanJoinTablesQuery:
                 # try to use second arg, could be: 'x'=col
                 col_idx = 1
 
+        if isinstance(node, BinaryOperation) and node.op.lower() == 'is':
+            # 'col IS NULL' holds for the rows an outer join adds: it can't be checked before the join
+            return
+
         # check the case col <condition> constant, col between constant and constant
         for i, arg in enumerate(node.args):
             if i == col_idx:
@@ -236,16 +240,29 @@ class PlanJoinTablesQuery:
         # get conditions for tables
         binary_ops = []
 
-        def _check_node_condition(node, **kwargs):
-            if isinstance(node, BetweenOperation):
-                self.check_node_condition(node)
-
+        def _collect_binary_ops(node, **kwargs):
             if isinstance(node, BinaryOperation):
                 binary_ops.append(node.op)
 
-                self.check_node_condition(node)
+        query_traversal(query.where, _collect_binary_ops)
 
-        query_traversal(query.where, _check_node_condition)
+        conjuncts = []
+
+        def _check_conjuncts(node):
+            # only a top-level conjunct of WHERE restricts the result on its own:
+            #   a comparison under OR, NOT, a function or a sub-select doesn't
+            if isinstance(node, BinaryOperation) and node.op.lower() == 'and':
+                for arg in node.args:
+                    _check_conjuncts(arg)
+            else:
+                conjuncts.append(node)
+                if isinstance(node, (BinaryOperation, BetweenOperation)):
+                    self.check_node_condition(node)
+
+        if query.where is not None:
+            _check_conjuncts(query.where)
+
+        self.query_context['where_conjuncts'] = len(conjuncts)
 
         self.query_context['binary_ops'] = binary_ops
 
